@@ -351,3 +351,12 @@ Fixpoint feed (chunks : list (list Z)) (buffer : list Z) : list (list Z) :=
   end.
 
 Definition jsonlines (chunks : list (list Z)) : list (list Z) := feed chunks [].
+
+(* labels of a fault-free continuation: requests, successful responses, event lines, yields, and the
+   client's own closing of a stream whose pause-waiter has fired *)
+Definition quiet (l : wlabel) : bool :=
+  match l with
+  | WC LReqList | WC (LListOk _ _) | WC (LYield _) | WC (LReqWatch _) | WC LWatchOk
+  | WC (LLine (LnEv _ _ _)) | WC (LEnd EClosed) => true
+  | _ => false
+  end.
